@@ -4,7 +4,11 @@ import Zc.Proofs.SurviveLive
 import Zc.Proofs.SurviveTimersC
 import Zc.Proofs.SurviveFlush
 import Zc.Proofs.BitmapIters
+import Zc.Proofs.NameTextGlue
 import Zc.Props.C15Route
+import Zc.Props.C15Closed
+import Zc.Props.C15ClosedQ
+import Zc.Props.C15Names
 import Zc.Props.C02
 /-! # C15 — a running instance survives any datagram stream
 
@@ -357,14 +361,15 @@ theorem C15_cached_names_writeback {d : CState ρ} (hI : CInv lower ettl Iρ d) 
   cached_names_writeback lower ettl Iρ hI
 
 /-- **D8b's site is covered**: the known-answer section the browsers' scheduler timer and the lookups
-build from cache content never makes `packets()` raise `NamePartTooLongException` (`TextGlue`: the
-text-layer identity `write_name(text of n)` = `reencName n`, the standing trusted glue). -/
-theorem C15_known_answers_no_name_part_too_long (glue : TextGlue) {d : CState ρ} (hI : CInv lower ettl Iρ d)
+build from cache content never makes `packets()` raise `NamePartTooLongException`.  (The text-layer identity
+`write_name(text of n)` = `reencName n`, formerly the hypothesis `TextGlue`, is the theorem `textGlue` of
+`Proofs/NameTextGlue.lean` since the text layer is modelled: `Zc.NameText`.) -/
+theorem C15_known_answers_no_name_part_too_long {d : CState ρ} (hI : CInv lower ettl Iρ d)
     (flags id : Nat) (mc : Bool) (qs : List Encode.EQuestion) (hq : ∀ q ∈ qs, ∀ x ∈ q.name, x.length ≤ 63)
     (known : List (Rec × Ms))
     (hk : ∀ x ∈ known, (∃ kb ∈ d.cache.cache ++ d.cache.svc, x.1 ∈ kb.2) ∧ x.1.rdata.kind ≠ .hinfo) :
     Encode.packets ⟨flags, id, mc, qs, known.map (fun x => (wireOfRec x.1, x.2)), [], []⟩ ≠ .error .namePartTooLong :=
-  known_answers_no_npl lower ettl Iρ glue hI flags id mc qs hq known hk
+  known_answers_no_npl lower ettl Iρ textGlue hI flags id mc qs hq known hk
 
 /-- **A query for a registered record is offered to the routing** (composed; C03's completeness).
 Under `CInv`: if a question of the assembled query asks for a record `r` of a registered service and the
@@ -481,25 +486,25 @@ with the text-layer identity and a clock that has not run backwards past a cache
 `_process_startup_queries` / `_process_ready_types`, `generate_service_query` with its known answers from the
 cache, the bucket grouping and `packets()` of every bucket all return, for every scheduler index, `done` flag,
 clock reading and bucket-size estimate; both invariants hold afterwards. -/
-theorem C15_browser_timer_total (glue : TextGlue) {d : CState ρ} (hI : CInv lower ettl Iρ d) (hT : TInv d)
+theorem C15_browser_timer_total {d : CState ρ} (hI : CInv lower ettl Iρ d) (hT : TInv d)
     (i : Nat) (done : Bool) (now : Ms) (hclock : ∀ r ∈ d.cache.allRecs, r.created ≤ QueryGen.browserAnswerTime now) :
     ∃ d' pks, browserFire lower sz d i done now = .ok (d', pks) ∧ CInv lower ettl Iρ d' ∧ TInv d' :=
-  browserFire_ok lower ettl Iρ sz glue hI hT i done now hclock
+  browserFire_ok lower ettl Iρ sz textGlue hI hT i done now hclock
 
 /-- **A lookup's query transmission never raises** (same hypotheses; `TInv.lookups`: the names the lookup's
 `ServiceInfo` holds — given by the application or learnt from SRV records — are encodable). -/
-theorem C15_lookup_query_total (glue : TextGlue) {d : CState ρ} (hI : CInv lower ettl Iρ d) (hT : TInv d)
+theorem C15_lookup_query_total {d : CState ρ} (hI : CInv lower ettl Iρ d) (hT : TInv d)
     (j : Nat) (now : Ms) (qu : Bool) (hclock : ∀ r ∈ d.cache.allRecs, r.created ≤ QueryGen.lookupAnswerTime now) :
     ∃ d' pks, lookupQuery lower d j now qu = .ok (d', pks) ∧ CInv lower ettl Iρ d' ∧ TInv d' :=
-  lookupQuery_ok lower ettl Iρ glue hI hT j now qu hclock
+  lookupQuery_ok lower ettl Iρ textGlue hI hT j now qu hclock
 
 /-- **Survival, every history, with the packet-building timer blocks inside the quantifier** (`_partial`:
-`ListenersOK`, `RouteOK`, `QueueOK`, `TextGlue`, and `hO` now only for the *residual* blocks — registration API,
+`ListenersOK`, `RouteOK`, `QueueOK` (`TextGlue` is discharged: `textGlue`), and `hO` now only for the *residual* blocks — registration API,
 browser / lookup start and stop, cache purge, the queues' timers).  From any state satisfying `CInv ∧ TInv`,
 every finite interleaving of datagram arrivals (any bytes, source, port, time), deferred-query timers, browser
 query timers, lookup query transmissions and residual blocks either runs to its end with both invariants in
 force, or contains a deferred-query timer block for an address whose timer is not armed at that point. -/
-theorem C15_history_timers_partial {β : Type} (glue : TextGlue) (hL : ListenersOK R Iρ) (hR : RouteOK R Iρ) (hQ : QueueOK R Iρ)
+theorem C15_history_timers_partial {β : Type} (hL : ListenersOK R Iρ) (hR : RouteOK R Iρ) (hQ : QueueOK R Iρ)
     (other' : CState ρ → β → Except PyExc (CState ρ × List (COut ω')))
     (hO : ∀ d b, CTInv lower ettl Iρ d → ∃ d' o, other' d b = .ok (d', o) ∧ CTInv lower ettl Iρ d')
     (d0 : CState ρ) (h0 : CTInv lower ettl Iρ d0) (bs : List (Survive.Block (TimerBlock ⊕ β))) :
@@ -508,8 +513,8 @@ theorem C15_history_timers_partial {β : Type} (glue : TextGlue) (hL : Listeners
       (∃ pre addr post s1 o1, bs = pre ++ Survive.Block.tcFire addr :: post ∧
         run (Comp.down lower possible ettl R) (otherT lower sz other') (State.init d0) pre = .ok (s1, o1) ∧
         alGet addr s1.timers = none) :=
-  run_ok' (comp_downOK_T lower possible ettl R Iρ glue hL hR hQ) sendOK_safe (otherT lower sz other')
-    (otherT_ok lower ettl Iρ sz glue other' hO) bs (State.init d0) h0 (LInv.init d0)
+  run_ok' (comp_downOK_T lower possible ettl R Iρ textGlue hL hR hQ) sendOK_safe (otherT lower sz other')
+    (otherT_ok lower ettl Iρ sz textGlue other' hO) bs (State.init d0) h0 (LInv.init d0)
 
 /-- the extended invariant holds initially -/
 example (r0 : ρ) (h : Iρ r0) : CTInv lower ettl Iρ ⟨{}, [], [], [], {}, [], [], none, r0⟩ :=
@@ -536,12 +541,12 @@ theorem C15_queue_flush_total {d : CState (ρ₀ × Route.RState)} (hI : CFInv l
 
 /-- **Survival, every history, all three packet-building timer blocks inside the quantifier** (`_partial`).  Over the
 composite whose residue is C12's reply model: assumptions left are `BaseOK` (user `RecordUpdateListener`s, waking lookup
-futures, `async_notify_all`), the text-layer identity `TextGlue`, the data invariants inside `CFInv` (`RegSafe`, `TypesSafe`,
+futures, `async_notify_all`), the data invariants inside `CFInv` (`RegSafe`, `TypesSafe`,
 the lookups' given names) and `hO` for the *residual* blocks (registration API, browser / lookup start and stop, cache purge).
 Every finite interleaving of datagram arrivals, deferred-query timers, browser query timers, lookup query transmissions,
 queue flushes and residual blocks runs to its end with the invariant in force — or contains a deferred-query timer block for
 an address whose timer is not armed at that point. -/
-theorem C15_history_all_timers_partial {β : Type} (glue : TextGlue) (hB : Route.BaseOK B I₀)
+theorem C15_history_all_timers_partial {β : Type} (hB : Route.BaseOK B I₀)
     (other' : CState (ρ₀ × Route.RState) → β → Except PyExc (CState (ρ₀ × Route.RState) × List (COut ω')))
     (hO : ∀ d b, CFInv lower ettl I₀ d → ∃ d' o, other' d b = .ok (d', o) ∧ CFInv lower ettl I₀ d')
     (d0 : CState (ρ₀ × Route.RState)) (h0 : CFInv lower ettl I₀ d0)
@@ -551,8 +556,8 @@ theorem C15_history_all_timers_partial {β : Type} (glue : TextGlue) (hB : Route
       (∃ pre addr post s1 o1, bs = pre ++ Survive.Block.tcFire addr :: post ∧
         run (Comp.down lower possible ettl (Route.rest lower attrib orc B)) (otherF lower sz other') (State.init d0) pre = .ok (s1, o1) ∧
         alGet addr s1.timers = none) :=
-  run_ok' (comp_downOK_F lower possible ettl attrib orc B I₀ glue hB) sendOK_safe (otherF lower sz other')
-    (otherF_ok lower ettl I₀ sz glue other' hO) bs (State.init d0) h0 (LInv.init d0)
+  run_ok' (comp_downOK_F lower possible ettl attrib orc B I₀ textGlue hB) sendOK_safe (otherF lower sz other')
+    (otherF_ok lower ettl I₀ sz textGlue other' hO) bs (State.init d0) h0 (LInv.init d0)
 
 end flush
 
